@@ -54,7 +54,9 @@ import (
 // u… single-use client addressing the server by host and port (identity without URL), p… kept-alive
 // client that sends decodable requests through Client.SendProtobuf.
 // par modes: overlap | plain | ordered (ParallelOptions: DontShuffle, StartNode 2, Parallel 1, node 2
-// ignored: the node handed back must be one of the nodes that may be asked) | quit (QuitError).
+// ignored: the node handed back must be one of the nodes that may be asked) | quit (QuitError) |
+// down1, down2 (one / two unreachable nodes among those asked) | downall (only unreachable nodes: an error) |
+// downquit (QuitError, the unreachable node is asked first: an error).
 //
 // body: `-` (no body) | `syntax` | `{}` | items separated by `;`:
 //   F=<int> (A), F=<hex> (S, B; `-` is empty), F=null, F! (ill-typed value), X=<int> (unknown field);
@@ -88,7 +90,7 @@ func c14start(n int) *c14env {
 func (e *c14env) doPar(tk []string) string {
 	n, err1 := strconv.Atoi(tk[4])
 	nonce, err2 := strconv.ParseInt(tk[5], 10, 64)
-	if err1 != nil || err2 != nil || n < 3 || n > len(e.srvs) || (tk[6] != "overlap" && tk[6] != "plain" && tk[6] != "ordered" && tk[6] != "quit") {
+	if err1 != nil || err2 != nil || n < 3 || n > len(e.srvs) || !c14parModes[tk[6]] {
 		return "bad-op"
 	}
 	var opt *onet.ParallelOptions
@@ -109,6 +111,25 @@ func (e *c14env) doPar(tk []string) string {
 	var nodes []*network.ServerIdentity
 	for _, s := range e.srvs[:n] {
 		nodes = append(nodes, s.ServerIdentity)
+	}
+	// nodes that cannot be reached (nothing listens on these ports): Send to them fails
+	down := func(i int) *network.ServerIdentity {
+		si := network.NewServerIdentity(fix.Suite.Point().Pick(fix.Suite.XOF([]byte(fmt.Sprint("c14down", i)))),
+			network.NewAddress(network.PlainTCP, fmt.Sprintf("127.0.0.1:%d", 1+2*i)))
+		si.URL = fmt.Sprintf("http://127.0.0.1:%d", 1+2*i)
+		return si
+	}
+	switch tk[6] {
+	case "down1":
+		nodes = append(nodes, down(0))
+	case "down2":
+		nodes = append([]*network.ServerIdentity{down(0)}, append(nodes, down(1))...)
+	case "downall":
+		nodes = []*network.ServerIdentity{down(0), down(1), down(2)}
+	case "downquit":
+		// the unreachable node is asked first and alone; the first error ends the call
+		nodes = append([]*network.ServerIdentity{down(0)}, nodes...)
+		opt = &onet.ParallelOptions{QuitError: true, DontShuffle: true, Parallel: 1}
 	}
 	var mu sync.Mutex
 	calls := 0
@@ -147,6 +168,9 @@ func (e *c14env) doPar(tk []string) string {
 	}
 	if err != nil || node == nil {
 		return "err"
+	}
+	if !c14isServer(e, node) {
+		return fmt.Sprintf("mismatch node=%s cannot have answered", node.Address)
 	}
 	if len(mayAsk) > 0 && !mayAsk[string(node.Address)] {
 		return fmt.Sprintf("mismatch node=%s is not among the nodes that may be asked", node.Address)
@@ -217,6 +241,18 @@ func (e *c14env) doAll(tk []string) string {
 		}
 	}
 	return "ok " + first
+}
+
+var c14parModes = map[string]bool{"overlap": true, "plain": true, "ordered": true, "quit": true,
+	"down1": true, "down2": true, "downall": true, "downquit": true}
+
+func c14isServer(e *c14env, si *network.ServerIdentity) bool {
+	for _, s := range e.srvs {
+		if s.ServerIdentity.Address == si.Address {
+			return true
+		}
+	}
+	return false
 }
 
 // c14startServer starts one TCP server whose websocket/HTTP port answers.
@@ -888,7 +924,12 @@ func c14oracle(cs *h.Case) {
 		}
 		if len(tk) == 7 && tk[1] == "par" {
 			classes["par:"+strings.Fields(obs + " -")[0]] = true
-			if obs != "ok pair" {
+			if tk[6] == "downall" || tk[6] == "downquit" {
+				// no node can answer (resp. the first error ends the call): an error, nobody handed back
+				if obs != "err" {
+					cs.Fail("c14:error-not-reported:parallel", fmt.Sprintf("request %d %q must end with an error, got %q", i, op, obs))
+				}
+			} else if obs != "ok pair" {
 				cs.Fail("c14:wrong-reply:parallel", fmt.Sprintf("request %d %q: the reply handed back is not the reply of the node handed back: %s", i, op, obs))
 			}
 			continue
@@ -1374,7 +1415,8 @@ func c14genCases(c *h.Ctx, yield func(*h.Case)) {
 		// one request to several servers at once, two replies overlapping (seed C14r3-A)
 		cs := &h.Case{Class: "corpus:parallel-send"}
 		cs.Ops = append(cs.Ops, "c14 par t1 o1 3 7 overlap", "c14 par t1 k1 5 8 overlap", "c14 par t1 o1 4 9 plain",
-			"c14 par t1 o1 4 10 ordered", "c14 par t1 k1 3 11 quit")
+			"c14 par t1 o1 4 10 ordered", "c14 par t1 k1 3 11 quit", "c14 par t1 o1 3 12 down1", "c14 par t1 k1 4 13 down2",
+			"c14 par t1 o1 3 14 downall", "c14 par t1 o1 3 15 downquit", "c14 par t1 k1 3 16 plain")
 		emit(cs)
 	}
 	{
@@ -1580,7 +1622,7 @@ func c14genCases(c *h.Ctx, yield func(*h.Case)) {
 			nthr = 1 + r.Intn(3)
 			for i := 0; i < nthr*(1+r.Intn(3)); i++ {
 				cl := []string{"o0", "k0", fmt.Sprintf("o%d", 1+r.Intn(3))}[r.Intn(3)]
-				mode := []string{"overlap", "overlap", "plain", "ordered", "quit"}[r.Intn(5)]
+				mode := []string{"overlap", "overlap", "plain", "ordered", "quit", "down1", "down2", "downall", "downquit"}[r.Intn(9)]
 				c.Count("par:" + mode)
 				nn := 3 + r.Intn(3)
 				cs.Ops = append(cs.Ops, fmt.Sprintf("c14 par t%d %s %d %d %s", r.Intn(nthr), cl, nn, 100+g.int(false)%1000000, mode))
